@@ -156,8 +156,24 @@ def run(ctx):
         nent = ch.draw(7, "nentries")
         for _ in range(nent):
             tag, val = gen_tag(ch, odd), gen_value(ch, nonbits, nested)
-            shot.append(tag, val)
-            entries.append((tag, val))
+            if entries and ch.coin(1, 6, "edit-in-place"):
+                # `entries` is a public list: a client may also replace / remove a recorded write in place
+                j = ch.draw(len(entries), "edit-pos")
+                if ch.coin(1, 4, "edit-delete"):
+                    del shot.entries[j]
+                    del entries[j]
+                    ctx.ev(s, "del entries[j]", j)
+                    tag, val = (entries[-1] if entries else (tag, val))
+                    if not entries:
+                        continue
+                else:
+                    shot.entries[j] = (tag, val)
+                    entries[j] = (tag, val)
+                    ctx.ev(s, "entries[j] = ...", [j, tag, rep(val)])
+                ctx.probe("entries_edited_in_place")
+            else:
+                shot.append(tag, val)
+                entries.append((tag, val))
             ctx.steps += 1
             exp, ambiguous = expected_bits(entries)
             got = call(shot.to_register_bits)
